@@ -37,6 +37,7 @@ func genC07V(r *kernel.Rand) *kernel.Scenario {
 	c["bus_max_us"] = int64([]int{100, 400}[r.Intn(2)])
 	c["react_max_us"] = int64([]int{50, 500}[r.Intn(2)])
 	c["yield_pct"] = int64([]int{0, 30}[r.Intn(2)])
+	c["long_yields"] = int64(r.Intn(2))
 	c["ctx_ms"] = 15000
 	c["assets"] = int64(1 + r.Weighted([]int{3, 1}))
 	c["r"] = int64(r.Uint64() >> 2)
